@@ -343,23 +343,27 @@ example : ((run init [.look 1 0, .look 2 0, .decide 1, .decide 2, .lock 1, .lock
 /-- a counter may not be touched outside its blocks -/
 example : (step init (.read 1 0)).isSome = false := by decide
 
-/-! ### The synchronisation skeleton the model was written against -/
+/-! ### Facts about the source, re-extracted from `/repo` on every run
 
-/-- The order of lock operations, owner-table accesses, the comparison and the body call in
-    `mutexRuntime.Eval`, as extracted from `/repo` on every run (`Ecal.Gen.C12.skeleton`,
-    identifiers normalised), is the one the events of `Ecal.Mutex.step` follow. -/
-theorem skeleton_matches : Ecal.Gen.C12.skeleton = [
-    "T[get M[N],get O[N],if !foundM{M=new;set M[N]=M}]",   -- look   (one atomic table section)
-    "if !foundO || O != tid",                              -- decide (absent owner reads as 0 ≠ tid)
-    "M.Lock",                                              -- lock
-    "T[set O[N]=tid]",                                     -- setOwner
-    "defer",                                               --   registered only on this branch
-    "T[set O[N]=0]",                                       -- resetOwner
-    "M.Unlock",                                            -- unlock
-    "end",
-    "else if O == tid",                                    -- re-entrant: nothing locked, nothing deferred
-    "end",
-    "body"] := by decide
+The ordered synchronisation skeleton of `mutexRuntime.Eval` (`Ecal.Gen.C12.skeleton`) is
+regenerated and recorded in the evidence; a change of it is *not* a failure (restructuring the
+function changes it) but makes the same run search harder. What must hold however the code is
+written are the two facts below (and `newThreadID_is_one_critical_section` further down): they
+are what makes a table section one atomic event of the model, and what makes `bodyEnd` always be
+followed by the release. -/
+
+/-- Every access to `erp.Mutexes` / `erp.MutexeOwners` in package `interpreter` happens with
+    `MutexesMutex` held (between its Lock and Unlock, or after its Lock when the Unlock is
+    deferred) — in `mutexRuntime.Eval` itself or in whatever helper the access lives in. -/
+theorem table_accesses_under_table_lock :
+    (Ecal.Gen.C12.tableAccesses.all fun a => a.2) = true ∧ Ecal.Gen.C12.tableAccesses ≠ [] := by decide
+
+/-- In `mutexRuntime.Eval` the `Unlock` of the named mutex is deferred right after its `Lock`,
+    unconditionally (directly or as a statement of a deferred function literal), and there is no
+    `Unlock` that is not deferred: it runs on every way out of the acquiring path and never before
+    the body. -/
+theorem unlock_deferred_on_acquiring_path :
+    (Ecal.Gen.C12.releases.all fun a => a.2) = true ∧ Ecal.Gen.C12.releases ≠ [] := by decide
 
 /-! ### Thread ids are > 0 and pairwise distinct
 
